@@ -5,6 +5,7 @@ Option reader accepts (ERR); absent key read as Null by derived readers and Null
 Option/Vec/HashMap/() (ABSENT); a required field's failure carries the field name and is not a
 panic site (G1); container elements go through the element reader (G2).
 """
+import re
 import facts as F
 from cfg import CFG
 from flow import Flow, call_sites, arg_local, last_seg
@@ -212,6 +213,33 @@ def rule_err(ctx, f):
     return M, W
 
 
+def rule_flatten(ctx, f):
+    ctx.rule("C18-ERR-text", "a loader that hands on an error it did not produce (the typed load `Resolve::get`, the resolver, the Option / container readers) "
+             "wraps or propagates it; it never formats it into the text of a new error, which would hide a 'no such object' cause from the Option reader")
+    n = 0
+    targets = []
+    for b in f.bodies.values():
+        im = b.get("impl") or {}
+        base = b["id"].split("::{closure")[0]
+        if (im.get("trait") == "object::Resolve" and base.endswith(("::get", "::resolve_flags"))) or base.endswith(("Storage::<B, OC, SC, L>::resolve_ref",)) or \
+                (im.get("trait") == "object::Object" and base.endswith("::from_primitive") and re.search(r"<(std::option::Option|object::MaybeRef|object::RcRef|std::vec::Vec|object::Ref|object::Lazy)<", b["id"])):
+            targets.append(b)
+    ctx.floor("C18-ERR-text", len(targets), 6, "loader bodies that pass errors on (get, resolve_flags, resolve_ref, Option/MaybeRef/RcRef/Vec readers)")
+    for b in targets:
+        for bi, t in F.calls(b):
+            nm = F.callee_name(t)
+            if last_seg(nm) in ("new_display", "new_debug") and "Argument" in nm:
+                mac = " ".join(t.get("mac") or [])
+                if re.search(r"\b(warn|debug|trace|info|error|log)!", mac):
+                    continue        # logging, not the returned error
+                ty = " ".join(t.get("targs") or []) + str(t.get("arg_tys"))
+                n += 1
+                ctx.check("PdfError" not in ty, "C18-ERR-text", "%s#formats-error" % b["id"],
+                          "an error value is formatted into the message of a new error: a 'no such object' cause inside it can no longer be recognised, so an optional "
+                          "entry pointing at a missing object fails instead of reading as absent", t["span"], detail="no PdfError is turned into text")
+    ctx.count("format arguments in loader bodies", n)
+
+
 def rule_absent(ctx, f):
     ctx.rule("C18-ABSENT", "derived readers read an absent key as Primitive::Null (else MissingEntry); Option, Vec, HashMap and () "
              "read Null as empty without calling the element reader")
@@ -397,6 +425,7 @@ def run(ctx):
     f = F.load("default")
     ctx.count("bodies", len(f.bodies))
     rule_err(ctx, f)
+    rule_flatten(ctx, f)
     rule_absent(ctx, f)
     rule_required(ctx, f)
     rule_elements(ctx, f)
